@@ -53,14 +53,16 @@ def hook(event, args):
     if active[0] and event == "exec":
         code = args[0]
         # eval()/exec() of a string compile it under the file name "<string>": audited text being run
-        if getattr(code, "co_filename", "?") == "<string>":
+        # (abstract.signature compiles the audited tree under the empty file name; anything that is not a file on disk)
+        fn = getattr(code, "co_filename", "?")
+        if fn in ("<string>", "", "<unknown>", "<ast>") or (not fn.startswith("<frozen") and not os.path.exists(fn)):
             execs.append(getattr(code, "co_name", "?"))
 
 
 sys.addaudithook(hook)
 
 
-class Timeout(Exception):
+class Timeout(BaseException):     # not an Exception: audited-library code that swallows `Exception` must not hide a hang
     pass
 
 
